@@ -40,11 +40,11 @@ META = dict(
                       "zero / top-bit pattern); formats raw, DER x {ssleay, pkcs8} x "
                       "{uncompressed, compressed, hybrid}; independent encodings with version 0/1, "
                       "with/without the optional public key, private scalar emitted shorter by 1..2 "
-                      "bytes", thorough="same + PEM armour handled concretely around each DER"),
+                      "bytes", thorough="same"),
     stubs=ecstub.STUBS + ["compressed reload: the square-root routine returns y or p-y for the "
                           "abscissa of an on-curve point (both explored) (contract: C15)"],
     outside=["that the curve constants themselves are the standard ones (data)",
-             "PEM text with symbolic characters; text-mode line endings"],
+             "PEM text whose armour (header, line breaks) is symbolic; text-mode line endings"],
     assumptions=["z3 LIA sound", "instrumented source executes like the original"],
     budget_s=dict(quick=900, thorough=3600),
 )
@@ -267,6 +267,51 @@ def load_independent(cname, variant):
     return H.run(h, "harness.c09", "load", funcs=FUNCS, modules=MODS, timeout_ms=120000)
 
 
+def _ref_pem(der_, name):
+    from symx.stext import B64
+    b64 = B64(der_)
+    out = ("-----BEGIN %s-----\n" % name).encode()
+    for start in range(0, len(b64), 64):
+        out = out + b64[start:start + 64] + b"\n"
+    return out + ("-----END %s-----\n" % name).encode()
+
+
+def pem(cname, enc):
+    """PEM output = RFC 7468 armour around the reference DER; PEM input loads back"""
+    pkg, keys, cv = _setup(cname)
+    n, p = cv.order, cv.curve.p()
+    Ln, Lp = (n.bit_length() + 7) // 8, (p.bit_length() + 7) // 8
+
+    def h():
+        H.inp("curve", cname); H.inp("enc", enc)
+        with ecstub.OpaqueEC(pkg):
+            d, sk, x, y = _sym_key(pkg, keys, cv)
+            H.inp("d", d); H.inp("x", x); H.inp("y", y)
+            vk = sk.verifying_key
+            parity = 1 if (y % 2 == 1) else 0
+            reach("key")
+            old = keys.square_root_mod_prime
+            keys.square_root_mod_prime = _SqrtEither(y, p)
+            try:
+                got = vk.to_pem(enc)
+                H.prove(got == _ref_pem(ref_spki(cname, x, y, Lp, enc, parity), "PUBLIC KEY"),
+                        "VerifyingKey.to_pem(%s) = armour(PUBLIC KEY) around the canonical SPKI" % enc)
+                _same_vk(keys.VerifyingKey.from_pem(got), vk, x, y, cv, "from_pem(to_pem(%s))" % enc)
+                for fmt, name, ref in (("ssleay", "EC PRIVATE KEY", ref_ecprivkey), ("pkcs8", "PRIVATE KEY", ref_pkcs8)):
+                    got = sk.to_pem(enc, fmt)
+                    H.prove(got == _ref_pem(ref(cname, d, Ln, x, y, Lp, enc, parity), name),
+                            "SigningKey.to_pem(%s,%s) = armour(%s) around the canonical DER" % (enc, fmt, name))
+                    _same_sk(keys.SigningKey.from_pem(got), sk, d, cv, "from_pem(to_pem(%s,%s))" % (enc, fmt))
+                    junk = b"Proc-Type: comment\nsome text before\n"
+                    _same_sk(keys.SigningKey.from_pem(junk + got), sk, d, cv,
+                             "from_pem(text before the header + to_pem(%s,%s))" % (enc, fmt))
+            finally:
+                keys.square_root_mod_prime = old
+
+    return H.run(h, "harness.c09", "emit", funcs=FUNCS + ("VerifyingKey.to_pem", "VerifyingKey.from_pem", "SigningKey.to_pem", "SigningKey.from_pem", "topem", "unpem"),
+                 modules=MODS, timeout_ms=120000)
+
+
 def pem_concrete(cname):
     """PEM = fixed armour around the DER above: header/footer literals, 64-column base64
     lines (concrete keys at boundary scalars; the DER inside is what emit() covers)"""
@@ -310,7 +355,8 @@ def jobs(tier, seed):
                         "pkcs8-v1-nopub", "pkcs8-compressed"):
             js.append(Job("load/%s/%s" % (c.name, variant), "harness.c09:load_independent",
                           cname=c.name, variant=variant))
-        js.append(Job("pem/" + c.name, "harness.c09:pem_concrete", cname=c.name))
+        for enc in ("uncompressed", "compressed", "hybrid"):
+            js.append(Job("pem/%s/%s" % (c.name, enc), "harness.c09:pem", cname=c.name, enc=enc))
     return js
 
 
@@ -363,7 +409,21 @@ def replay_emit(inp):
         for got, want, what in checks:
             if got != want:
                 return True, "%s d=%d %s(%s): library %s != reference %s" % (cv.name, d, what, enc, got.hex(), want.hex())
+        import base64
+
+        def arm(der_, name):
+            b64 = base64.b64encode(der_)
+            return ("-----BEGIN %s-----\n" % name).encode() + b"".join(
+                b64[i:i + 64] + b"\n" for i in range(0, len(b64), 64)) + ("-----END %s-----\n" % name).encode()
+        if vk.to_pem(enc) != arm(ref_spki(cv.name, x, y, Lp, enc, par), "PUBLIC KEY"):
+            return True, "%s d=%d: to_pem(%s) is not the armoured canonical SPKI" % (cv.name, d, enc)
+        if sk.to_pem(enc, "ssleay") != arm(ref_ecprivkey(cv.name, d, Ln, x, y, Lp, enc, par), "EC PRIVATE KEY"):
+            return True, "%s d=%d: to_pem(%s, ssleay) is not the armoured canonical ECPrivateKey" % (cv.name, d, enc)
+        if sk.to_pem(enc, "pkcs8") != arm(ref_pkcs8(cv.name, d, Ln, x, y, Lp, enc, par), "PRIVATE KEY"):
+            return True, "%s d=%d: to_pem(%s, pkcs8) is not the armoured canonical PKCS#8" % (cv.name, d, enc)
         try:
+            if keys.VerifyingKey.from_pem(vk.to_pem(enc)) != vk or keys.SigningKey.from_pem(sk.to_pem(enc)) != sk:
+                return True, "%s d=%d: PEM round trip (%s)" % (cv.name, d, enc)
             if keys.VerifyingKey.from_der(vk.to_der(enc)) != vk:
                 return True, "%s d=%d: from_der(to_der(%s)) != key" % (cv.name, d, enc)
             for fmt in ("ssleay", "pkcs8"):
